@@ -18,14 +18,14 @@ ASSUMPTIONS = ["regex model symex/regexmodel.py built from the pattern string fo
 
 def shards(tier):
     out = []
-    geos = [("plate", 3, 12), ("plate", 9, 2), ("plate", 26, 1), ("plate", 1, 1), ("trough", 9, 2), ("trough", 1, 1)]
+    geos = [("plate", 3, 12), ("plate", 9, 2), ("plate", 26, 1), ("plate", 1, 1), ("trough", 9, 2), ("trough", 1, 1), ("ltrough", 3, 2)]
     if tier == "thorough":
         geos += [("plate", 16, 24), ("plate", 8, 12), ("trough", 26, 24), ("trough", 8, 12)]
     for g in geos:
         for dev in ("evo", "fluent"):
             for L in range(0, 5 if tier == "quick" else 6):
                 out.append(dict(part="helper", geo=g, dev=dev, L=L))
-    for g in [("plate", 3, 2), ("trough", 3, 2)] + ([("plate", 8, 12)] if tier == "thorough" else []):
+    for g in [("plate", 3, 2), ("trough", 3, 2), ("ltrough", 3, 2)] + ([("plate", 8, 12)] if tier == "thorough" else []):
         for dev in ("evo", "fluent"):
             for op in ("aspirate", "dispense"):
                 for L in (2, 3, 4):
@@ -34,6 +34,7 @@ def shards(tier):
         out.append(dict(part="tables", kind="plate", cols=cols, concrete=True))
     for cols in (1, 2, 12, 24):
         out.append(dict(part="tables", kind="trough", cols=cols, concrete=True))
+    out.append(dict(part="tables", kind="ltrough", cols=2, concrete=True))
     return out
 
 
@@ -70,12 +71,18 @@ def make(ns, g):
     kind, R, C = g
     if kind == "plate":
         return ns.Labware("P", R, C, min_volume=0, max_volume=1e6, initial_volumes=500)
+    if kind == "ltrough":
+        # a trough declared through the generic constructor (supported, emits a UserWarning)
+        import warnings
+        with warnings.catch_warnings():
+            warnings.simplefilter("ignore")
+            return ns.Labware("P", 1, C, min_volume=0, max_volume=1e6, initial_volumes=500, virtual_rows=R)
     return ns.Trough("P", R, C, min_volume=0, max_volume=1e6, initial_volumes=500)
 
 
 def formula(kind, R, C, dev, r, c):
     """specification: r = (virtual) row index, c = column index, both 0-based"""
-    if kind == "trough":
+    if kind in ("trough", "ltrough"):
         return 1 + c if dev == "fluent" else 1 + c * R + r
     return 1 + c * R + r
 
@@ -177,7 +184,7 @@ def wrap(ctx, x):
 
 
 def formula_expr(kind, R, dev, r, c):
-    if kind == "trough":
+    if kind in ("trough", "ltrough"):
         return 1 + c if dev == "fluent" else 1 + c * R + r
     return 1 + c * R + r
 
@@ -191,6 +198,7 @@ def scenario_tables(ctx, p, ns):
     msgs = []
     C = p["cols"]
     rows = range(1, 27) if p["kind"] == "plate" else (1, 2, 8, 26)
+    istrough = p["kind"] in ("trough", "ltrough")
     for R in rows:
         lab = make(ns, (p["kind"], R, C))
         ids = [[f"{ROWS[r]}{c + 1:02d}" for c in range(C)] for r in range(R)]
@@ -207,7 +215,7 @@ def scenario_tables(ctx, p, ns):
         for r in range(R):
             for c in range(C):
                 w = ids[r][c]
-                real = (0, c) if p["kind"] == "trough" else (r, c)
+                real = (0, c) if istrough else (r, c)
                 if tuple(lab.indices[w]) != real:
                     msgs.append(f"C08: indices[{w}] = {lab.indices[w]} instead of {real} ({p['kind']} {R}x{C})")
                 fe, ff = formula(p["kind"], R, C, "evo", r, c), formula(p["kind"], R, C, "fluent", r, c)
